@@ -13,10 +13,20 @@ pub fn kind_of(name: &str) -> ErrorKind {
         "PermissionDenied" => ErrorKind::PermissionDenied,
         "TimedOut" => ErrorKind::TimedOut,
         "WouldBlock" => ErrorKind::WouldBlock,
+        "InvalidData" => ErrorKind::InvalidData,
+        "InvalidInput" => ErrorKind::InvalidInput,
+        "BrokenPipe" => ErrorKind::BrokenPipe,
+        "NotFound" => ErrorKind::NotFound,
+        "WriteZero" => ErrorKind::WriteZero,
+        "OutOfMemory" => ErrorKind::OutOfMemory,
         k => panic!("kind {k}"),
     }
 }
-pub const KINDS: [&str; 5] = ["Other", "UnexpectedEof", "PermissionDenied", "TimedOut", "WouldBlock"];
+pub const KINDS: [&str; 11] = ["Other", "UnexpectedEof", "PermissionDenied", "TimedOut", "WouldBlock", "InvalidData", "InvalidInput", "BrokenPipe",
+                               "NotFound", "WriteZero", "OutOfMemory"];
+/// the model's fault kind "Other" stands for any kind that is neither Interrupted nor UnexpectedEof
+const OTHER_KINDS: [&str; 10] = ["Other", "InvalidData", "PermissionDenied", "TimedOut", "WouldBlock", "InvalidInput", "BrokenPipe", "NotFound", "WriteZero",
+                                 "OutOfMemory"];
 
 /// A BufRead that hands out the bytes in the given chunk sizes (0 = report Interrupted once),
 /// then in chunks of `rest`; fails for good with `fault` when asked for the byte at that offset.
@@ -122,7 +132,9 @@ pub fn replay(args: &Args, s: &mut Summary) {
         let file = bytes_of(&c["file"]);
         let sched: Vec<usize> = geta(&c, "sched").iter().map(|x| x.as_u64().unwrap() as usize).collect();
         let foff = geti(&c["fault"], "off");
-        let fault = if foff >= 0 { Some((foff as usize, kind_of(gets(&c["fault"], "kind")))) } else { None };
+        let conc = |name: &str| if name == "Other" { kind_of(OTHER_KINDS[(s.cases as usize) % OTHER_KINDS.len()]) } else { kind_of(name) };
+        let fault = if foff >= 0 { Some((foff as usize, conc(gets(&c["fault"], "kind")))) } else { None };
+        let want_kind = if gets(&c, "result") == "ok" { None } else { Some(conc(gets(&c, "result"))) };
         let enc = gets(&c, "enc");
         let want_res = gets(&c, "result");
         // expected deliveries: the model's raw lines -> text -> the framing rule
@@ -179,8 +191,8 @@ pub fn replay(args: &Args, s: &mut Summary) {
                     (Ok(_), "ok") => {}
                     (Ok((_, d)), _) => s.mismatch("fault-swallowed", json!({"file": file, "sched": sc, "rest": rest, "fault": c["fault"], "got_deliveries": d})),
                     (Err(k), "ok") => s.mismatch("error-without-fault", json!({"file": file, "sched": sc, "rest": rest, "got": format!("{k:?}")})),
-                    (Err(k), w) => {
-                        if kind_of(w) != *k {
+                    (Err(k), _) => {
+                        if want_kind != Some(*k) {
                             s.mismatch("wrong-error-kind", json!({"file": file, "sched": sc, "fault": c["fault"], "got": format!("{k:?}")}));
                         }
                     }
@@ -286,6 +298,9 @@ pub fn relations(args: &Args, s: &mut Summary) {
     }
     if prop == "C09" {
         rel_c09_write(s, &mut rng, &files, thorough);
+    }
+    if prop == "C10" {
+        line_sweep(s, thorough);
     }
     if prop == "C10" && thorough {
         scalar_sweep(s);
@@ -690,6 +705,99 @@ fn rel_c10(s: &mut Summary, rng: &mut Rng, name: &str, text: &str, thorough: boo
             }
         }
     }
+}
+
+/// The text of a line is std's lossy conversion of its bytes, whatever the LENGTH of the text before an
+/// invalid sequence (ASCII prefixes of 0..130 bytes: buffer growth, any fast-path threshold) and for
+/// longer invalid patterns than the model's three payload bytes; `\r\n`, `\n` and a lone `\r`; characters
+/// that are NOT line breaks.  Observed through the title field of the Metadata decoder.
+fn line_sweep(s: &mut Summary, thorough: bool) {
+    use rosu_map::section::metadata::Metadata;
+    let patterns: Vec<&[u8]> = vec![
+        b"\xF0\x9F\x98", b"\xF0\x9F\x98A", b"\xF0\x9F", b"\xF0", b"\xF0\x9F\x98\x80", b"\xE2\x82", b"\xE2\x82\xAC", b"\xE2", b"\xC3", b"\xC3\xA9",
+        b"\xC0\xAF", b"\xE0\x80\xAF", b"\xF0\x80\x80\xAF", b"\xED\xA0\x80", b"\xED\xBF\xBF", b"\xF4\x90\x80\x80", b"\xF8\x88\x80\x80\x80",
+        b"\xFF\xFF", b"\x80\x80\x80", b"\xC3\xC3\xA9", b"\xE2\xE2\x82\xAC", b"\xF0\x9F\xF0\x9F\x98\x80", b"\xEF\xBB\xBF", b"\xEF\xBB", b"\xFE\xFF",
+        b"\xE2\x80\xA8", b"\xC2\x85", b"\x0B", b"\x0C", b"\x00", b"\r", b"\rX", b"\xC3\r", b"\xF0\x9F\x98\r",
+    ];
+    let max_prefix = if thorough { 260 } else { 130 };
+    for (pi, pat) in patterns.iter().enumerate() {
+        // very long lines (internal buffer sizes) for a few patterns only
+        let mut plens: Vec<usize> = (0..=max_prefix).collect();
+        if pi % 8 == 0 {
+            plens.extend([1023, 4096, 8191, 65_510, 65_536, 65_537, 70_000, 200_001]);
+        }
+        for plen in plens {
+            for ending in [&b"\n"[..], &b"\r\n"[..], &b""[..]] {
+                let mut payload: Vec<u8> = Vec::new();
+                payload.extend(std::iter::repeat(b'q').take(plen));
+                payload.extend_from_slice(pat);
+                payload.push(b'b');
+                let mut file: Vec<u8> = b"[Metadata]\nTitle:a".to_vec();
+                file.extend_from_slice(&payload);
+                file.extend_from_slice(ending);
+                if !ending.is_empty() {
+                    file.extend_from_slice(b"Artist:z");
+                    file.extend_from_slice(ending);
+                }
+                let want = format!("a{}", String::from_utf8_lossy(&payload));
+                let want = want.trim_end().to_string();
+                let r = guarded("C10 line sweep", || rosu_map::from_bytes::<Metadata>(&file));
+                s.checks += 1;
+                match r {
+                    Err(p) => s.mismatch("panic", json!({"what": "line sweep", "panic": p})),
+                    Ok(Ok(m)) if m.title == want && (ending.is_empty() || m.artist == "z") => {}
+                    Ok(other) => s.mismatch("lossy-utf8-differs-from-std", json!({"prefix_len": plen, "pattern": format!("{pat:02X?}"), "ending": format!("{ending:?}"),
+                        "got": other.map(|m| (m.title.escape_unicode().to_string(), m.artist)).map_err(|e| e.to_string()).ok(), "want": want.escape_unicode().to_string()})),
+                }
+            }
+        }
+    }
+    // UTF-16: unit patterns after prefixes of 0..70 units
+    // every sequence of up to four units over {two high surrogates, a low surrogate, 'A'}
+    let mut upatterns: Vec<Vec<u16>> = vec![];
+    let alpha = [0xD83Du16, 0xD800, 0xDE00, 0x41];
+    for n in 1..=4u32 {
+        for code in 0..4usize.pow(n) {
+            upatterns.push((0..n).map(|k| alpha[(code / 4usize.pow(k)) % 4]).collect());
+        }
+    }
+    let exhaustive = upatterns.len();
+    upatterns.extend(vec![vec![0xD800], vec![0xDC00], vec![0xDC00, 0xD800], vec![0xD83D, 0xDE00], vec![0xD83D], vec![0xD83D, 0x41], vec![0xDE00, 0xDE00],
+                                        vec![0xFEFF], vec![0xFFFE], vec![0x2028], vec![0x85], vec![0x0B], vec![0x0D], vec![0x0D, 0x41], vec![0x0A0D], vec![0x0D0A], vec![0x0A00]]);
+    for (pi, pat) in upatterns.iter().enumerate() {
+        // (the exhaustive surrogate sequences at three prefix lengths only)
+        let plens: Vec<usize> = if pi < exhaustive { vec![0, 1, 33] } else { (0..=(if thorough { 140 } else { 70 })).collect() };
+        for plen in plens {
+            for le in [true, false] {
+                for crlf in [false, true] {
+                    let mut payload: Vec<u16> = std::iter::repeat(b'q' as u16).take(plen).collect();
+                    payload.extend_from_slice(pat);
+                    payload.push(b'b' as u16);
+                    let mut units: Vec<u16> = "[Metadata]\nTitle:a".encode_utf16().collect();
+                    units.extend_from_slice(&payload);
+                    let nl: &[u16] = if crlf { &[0x0D, 0x0A] } else { &[0x0A] };
+                    units.extend_from_slice(nl);
+                    units.extend("Artist:z".encode_utf16());
+                    units.extend_from_slice(nl);
+                    let mut file: Vec<u8> = if le { vec![0xFF, 0xFE] } else { vec![0xFE, 0xFF] };
+                    for u in &units {
+                        file.extend_from_slice(&if le { u.to_le_bytes() } else { u.to_be_bytes() });
+                    }
+                    let want = format!("a{}", String::from_utf16_lossy(&payload));
+                    let want = want.trim_end().to_string();
+                    let r = guarded("C10 line sweep 16", || rosu_map::from_bytes::<Metadata>(&file));
+                    s.checks += 1;
+                    match r {
+                        Err(p) => s.mismatch("panic", json!({"what": "line sweep utf16", "panic": p})),
+                        Ok(Ok(m)) if m.title == want && m.artist == "z" => {}
+                        Ok(other) => s.mismatch("lossy-utf16-differs-from-std", json!({"prefix_len": plen, "pattern": format!("{pat:04X?}"), "le": le, "crlf": crlf,
+                            "got": other.map(|m| (m.title.escape_unicode().to_string(), m.artist)).map_err(|e| e.to_string()).ok(), "want": want.escape_unicode().to_string()})),
+                    }
+                }
+            }
+        }
+    }
+    s.cases += 1;
 }
 
 /// every Unicode scalar value as the single character of a metadata title, three BOM encodings
